@@ -122,6 +122,31 @@ func genC16(ctx *Ctx) {
 		ctx.Count("long-sibling-symbols")
 		ctx.Input(sx.L(regs, ins), true)
 	}
+	// scale: 70 .. 300 registered symbols (all lengths 1..5 over a small alphabet, many shared prefixes), read back in
+	// several orders with continuations
+	for _, K := range []int{70, 130, 300} {
+		var regs, ins sx.List
+		var syms []string
+		al := []rune{'<', '=', '>', 'é', 'Ā'}
+		for i := 0; len(syms) < K; i++ {
+			n := 1 + i%5
+			rs := make([]rune, n)
+			x := i*7 + i/5
+			for j := range rs {
+				rs[j] = al[x%len(al)]
+				x /= len(al)
+				x += j
+			}
+			syms = append(syms, string(rs))
+			regs = append(regs, sx.L(sx.S(string(rs)), sx.I(types[i%len(types)])))
+		}
+		for i := 0; i < 120; i++ {
+			sy := syms[(i*13)%len(syms)]
+			ins = append(ins, sx.S(sy+[]string{"", "a", "<", "=>", "é"}[i%5]))
+		}
+		ctx.Count("scale-symbols")
+		ctx.Input(sx.L(regs, ins), true)
+	}
 	// random larger sets over a richer alphabet
 	alpha := []rune{'a', 'b', '<', '=', '>', 'é', '日', 'ÿ', 'þ', 'Ā', 0xFFFE}
 	rstr := func(max int) string {
